@@ -7,8 +7,10 @@ import sys
 import time
 
 VERIF = os.path.dirname(os.path.dirname(os.path.abspath(__file__)))
-EVID = os.path.join(VERIF, "evidence")
-REPLAYS = os.path.join(VERIF, "replays")
+# VERIF_OUT redirects evidence and replays (used when a check is pointed at a scratch copy through VERIF_REPO, so that
+# trial runs on a deliberately broken tree never overwrite the evidence of the real one)
+EVID = os.path.join(os.environ.get("VERIF_OUT", VERIF), "evidence")
+REPLAYS = os.path.join(os.environ.get("VERIF_OUT", VERIF), "replays")
 KNOWN = os.path.join(VERIF, "known_findings.json")
 
 EXIT_OK, EXIT_VIOLATION, EXIT_HARNESS = 0, 1, 2
@@ -80,6 +82,12 @@ class Check:
     # -- evidence -----------------------------------------------------------
     def finish(self, evaluations, distinct_nontrivial, rule, samples, extra=None, assumptions=None, min_nontrivial=2,
                exhaustive=None):
+        from . import harness as _h
+        for w in _h.FD_LEAKS[:20]:
+            # every yrh case is bracketed by a count of /proc/self/fd: whatever the property, a library call that keeps a
+            # descriptor open after all its objects were destroyed is a leak
+            self.violation("descriptor-leak", w)
+        self.counters["cases_with_descriptor_delta"] = len(_h.FD_LEAKS)
         cov = {
             "evaluations": int(evaluations),
             "distinct_nontrivial": int(distinct_nontrivial),
